@@ -31,16 +31,6 @@ def fldsGen (skip : Option String) : List Fld → List Fld → Prop
   | a :: as, b :: bs => fldGen skip a b ∧ fldsGen skip as bs
   | _, _ => False
 
-/-- the identifier field of a node whose identifier is a `_v_` / `___` placeholder is not compared -/
-def skipField (p : T) : Option String :=
-  match identField p.kind with
-  | none => none
-  | some f =>
-    match nameClass (p.strAttr f) with
-    | .var => some f
-    | .wild => some f
-    | _ => none
-
 /-- the identifier of an identifier-carrying pattern node against the program node's -/
 def identGen (ρ : String → String) (p t : T) : Prop :=
   match identField p.kind with
@@ -698,5 +688,171 @@ theorem genAt_wildcard {ρ : String → String} {ε : String → Option Path} (f
   have hr : role (T.mk "Name" f fl kids) = .wildcard := role_of_name_wild rfl h
   rw [genAt.eq_def]
   simp [hr]
+
+/-! ### the decidable checker `genChk` (PedalModel/CaitSpec.lean) is sound for `genAt` -/
+
+theorem fldGenB_sound {skip : Option String} {fi fs : Fld} (h : fldGenB skip fi fs = true) : fldGen skip fi fs := by
+  simp only [fldGenB, Bool.and_eq_true, Bool.or_eq_true, decide_eq_true_eq] at h
+  refine ⟨h.1, ?_⟩
+  rcases h.2 with ((h | h) | h) | h
+  · exact Or.inl h
+  · exact Or.inr (Or.inl h)
+  · exact Or.inr (Or.inr (Or.inl h))
+  · cases hv : fi.val with
+    | none => exact Or.inr (Or.inl rfl)
+    | one i =>
+      cases i with
+      | node => exact Or.inr (Or.inr (Or.inr (Or.inl rfl)))
+      | prim v => simp [hv] at h
+    | many li =>
+      simp only [hv, List.all_eq_true, decide_eq_true_eq] at h
+      exact Or.inr (Or.inr (Or.inr (Or.inr ⟨li, rfl, h⟩)))
+
+theorem fldsGenB_sound {skip : Option String} : ∀ (l1 l2 : List Fld), fldsGenB skip l1 l2 = true → fldsGen skip l1 l2 := by
+  intro l1
+  induction l1 with
+  | nil => intro l2 h; cases l2 with
+    | nil => trivial
+    | cons _ _ => simp [fldsGenB] at h
+  | cons a as ih =>
+    intro l2 h
+    cases l2 with
+    | nil => simp [fldsGenB] at h
+    | cons b bs =>
+      simp only [fldsGenB, Bool.and_eq_true] at h
+      exact ⟨fldGenB_sound h.1, ih bs h.2⟩
+
+theorem identGenB_sound {rho : List (String × String)} {p t : T} (h : identGenB rho p t = true) :
+    identGen (rhoF rho) p t := by
+  simp only [identGenB] at h
+  simp only [identGen]
+  cases hi : identField p.kind with
+  | none => trivial
+  | some f =>
+    simp only [hi] at h ⊢
+    cases hc : nameClass (p.strAttr f) <;> simp only [hc] at h ⊢ <;> first | trivial | simpa using h
+
+theorem nodeGenB_sound {rho : List (String × String)} {p t : T} (h : nodeGenB rho p t = true) :
+    nodeGen (rhoF rho) p t := by
+  simp only [nodeGenB, Bool.and_eq_true, decide_eq_true_eq] at h
+  exact ⟨h.1.1, fldsGenB_sound _ _ h.1.2, identGenB_sound h.2⟩
+
+theorem opGenB_sound {op sop : T} (h : opGenB op sop = true) : opGen op sop := by
+  simp only [opGenB, Bool.and_eq_true, decide_eq_true_eq] at h
+  exact ⟨h.1.1, h.1.2, fldsGenB_sound _ _ h.2⟩
+
+theorem genChkKids_sound {rho : List (String × String)} {eps : List (String × Path)} {al : List (Path × Path)}
+    (ig : List String) (pp sp : Path) (t : T) (ps : List T)
+    (hIH : ∀ c ∈ ps, ∀ pp sp t, genChk rho eps al pp c sp t = true → genAt (rhoF rho) (epsF eps) pp c sp t) :
+    ∀ i minJ, genChkKids rho eps al ig pp i ps sp minJ t = true →
+      genKids (rhoF rho) (epsF eps) ig pp i ps sp minJ (t.kids.drop minJ) := by
+  induction ps with
+  | nil => intro i minJ _; rw [genKids]; trivial
+  | cons pc rest ih =>
+    intro i minJ h
+    have ih' := ih (fun c hc => hIH c (List.mem_cons_of_mem _ hc))
+    rw [genChkKids] at h
+    rw [genKids]
+    by_cases hign : ig.contains pc.field = true
+    · simp only [hign, if_true] at h ⊢
+      exact ih' (i + 1) minJ h
+    · simp only [hign, Bool.false_eq_true, if_false] at h ⊢
+      cases hd : dictGet (pp ++ [i]) al with
+      | none => simp [hd] at h
+      | some q =>
+        simp only [hd] at h
+        cases hj : q.getLast? with
+        | none => simp [hj] at h
+        | some j =>
+          simp only [hj, Bool.and_eq_true, decide_eq_true_eq] at h
+          obtain ⟨⟨⟨hq, hle⟩, hkid⟩, hrest⟩ := h
+          cases hs : t.kids[j]? with
+          | none => simp [hs] at hkid
+          | some sj =>
+            simp only [hs, Bool.and_eq_true, decide_eq_true_eq] at hkid
+            refine ⟨j - minJ, sj, ?_, hkid.1, ?_, ?_⟩
+            · rw [List.getElem?_drop]
+              have : minJ + (j - minJ) = j := by omega
+              rw [this]; exact hs
+            · have : minJ + (j - minJ) = j := by omega
+              rw [this, ← hq]
+              exact hIH pc List.mem_cons_self _ _ _ hkid.2
+            · rw [List.drop_drop]
+              have e1 : minJ + (j - minJ) + 1 = j + 1 := by omega
+              have e2 : minJ + (j - minJ + 1) = j + 1 := by omega
+              rw [e1, e2]
+              exact ih' (i + 1) (j + 1) hrest
+
+theorem genChkFlex_sound_aux {rho : List (String × String)} {eps : List (String × Path)} {al : List (Path × Path)}
+    {kids : List T} {pp sp : Path} {t : T}
+    (ih : ∀ c ∈ kids, ∀ pp sp t, genChk rho eps al pp c sp t = true → genAt (rhoF rho) (epsF eps) pp c sp t)
+    (h : genChkFlex rho eps al pp kids sp t = true) : genFlex (rhoF rho) (epsF eps) pp kids sp t := by
+  rw [genChkFlex.eq_def] at h
+  rw [genFlex.eq_def]
+  match kids, ih, h with
+  | [l, op, rr], ih, h =>
+    simp only at h ⊢
+    match hk : t.kids, h with
+    | [sl, sop, sr], h =>
+      simp only [Bool.and_eq_true, decide_eq_true_eq] at h
+      obtain ⟨⟨⟨⟨h1, h2⟩, h3⟩, h4⟩, h5⟩ := h
+      exact ⟨sl, sop, sr, rfl, opGenB_sound h1, h2, h3, ih l (by simp) _ _ _ h4, ih rr (by simp) _ _ _ h5⟩
+    | [], h => simp at h
+    | [_], h => simp at h
+    | [_, _], h => simp at h
+    | _ :: _ :: _ :: _ :: _, h => simp at h
+  | [], _, h => simp at h
+  | [_], _, h => simp at h
+  | [_, _], _, h => simp at h
+  | _ :: _ :: _ :: _ :: _, _, h => simp at h
+
+theorem genChk_sound {rho : List (String × String)} {eps : List (String × Path)} {al : List (Path × Path)} :
+    ∀ (p : T) (pp sp : Path) (t : T), genChk rho eps al pp p sp t = true → genAt (rhoF rho) (epsF eps) pp p sp t := by
+  intro p
+  induction p using T.induct' with
+  | h k f fl kids ih =>
+    intro pp sp t h
+    rw [genChk.eq_def] at h
+    rw [genAt.eq_def]
+    simp only at h ⊢
+    cases hr : role (T.mk k f fl kids) with
+    | expPh name =>
+      simp only [hr] at h ⊢
+      simpa [epsF] using h
+    | wildcard =>
+      simp only [hr] at h ⊢
+      by_cases hk : (k = "Name" ∨ k = "Expr")
+      · simp [hk]
+      · have hk' : (decide (k = "Name") || decide (k = "Expr")) = false := by
+          simp only [not_or] at hk; simp [hk.1, hk.2]
+        simp only [hk', Bool.false_and, Bool.false_eq_true, if_false, Bool.and_eq_true] at h
+        simp only [hk, false_and, if_false]
+        refine ⟨nodeGenB_sound h.1, ?_⟩
+        by_cases hfl : flexOp (T.mk k f fl kids) = true
+        · simp only [hfl, if_true] at h ⊢
+          exact genChkFlex_sound_aux ih h.2
+        · simp only [hfl, Bool.false_eq_true, if_false] at h ⊢
+          simpa using genChkKids_sound _ pp sp t kids ih 0 0 h.2
+    | wrapper =>
+      simp only [hr] at h ⊢
+      simp only [reduceCtorEq, decide_false, Bool.and_false, Bool.false_eq_true, if_false, Bool.and_eq_true,
+        and_false] at h ⊢
+      refine ⟨nodeGenB_sound h.1, ?_⟩
+      by_cases hfl : flexOp (T.mk k f fl kids) = true
+      · simp only [hfl, if_true] at h ⊢
+        exact genChkFlex_sound_aux ih h.2
+      · simp only [hfl, Bool.false_eq_true, if_false] at h ⊢
+        simpa using genChkKids_sound _ pp sp t kids ih 0 0 h.2
+    | concrete =>
+      simp only [hr] at h ⊢
+      simp only [reduceCtorEq, decide_false, Bool.and_false, Bool.false_eq_true, if_false, Bool.and_eq_true,
+        and_false] at h ⊢
+      refine ⟨nodeGenB_sound h.1, ?_⟩
+      by_cases hfl : flexOp (T.mk k f fl kids) = true
+      · simp only [hfl, if_true] at h ⊢
+        exact genChkFlex_sound_aux ih h.2
+      · simp only [hfl, Bool.false_eq_true, if_false] at h ⊢
+        simpa using genChkKids_sound _ pp sp t kids ih 0 0 h.2
+
 
 end Pedal.Cait
